@@ -268,6 +268,22 @@ impl<const NB_PROOFS: usize> LightAggregator<NB_PROOFS> {
         })
     }
 
+    /// The fixed bases of the inner vk for which the accumulator of an inner proof
+    /// carries a (committed) scalar, in key order: `-G`, the permutation commitments
+    /// and the fixed commitments opened by some query. A fixed commitment that no
+    /// query opens never enters the dual MSM of `prepare`, so the accumulator has no
+    /// scalar for it and the IPA must not pair it with one.
+    fn ipa_fixed_bases(&self, fixed_bases: &BTreeMap<String, C>) -> Vec<C> {
+        let nb_fixed = self.inner_vk.fixed_commitments().len();
+        let names = midnight_circuits::verifier::fixed_base_names::<S>("inner_vk", nb_fixed, 0);
+        let queries = self.inner_vk.cs().fixed_queries();
+        let unopened = |name: &String| {
+            (0..nb_fixed)
+                .any(|i| &names[i + 1] == name && !queries.iter().any(|(c, _)| c.index() == i))
+        };
+        fixed_bases.iter().filter(|(name, _)| !unopened(name)).map(|(_, b)| *b).collect()
+    }
+
     /// Aggregates the given proofs (supposedly valid w.r.t the aggregator's
     /// inner vk and their corresponding public inputs).
     ///
@@ -376,7 +392,7 @@ impl<const NB_PROOFS: usize> LightAggregator<NB_PROOFS> {
 
         // Create the IPA proof
         let mut scalars = acc_committed_instances.clone();
-        let mut bases1 = [acc.rhs().bases(), fixed_bases.values().cloned().collect()].concat();
+        let mut bases1 = [acc.rhs().bases(), self.ipa_fixed_bases(&fixed_bases)].concat();
         let mut bases2 = self.lagrange_commitments[..bases1.len()].to_vec();
 
         let k = bases1.len().next_power_of_two();
@@ -455,7 +471,7 @@ impl<const NB_PROOFS: usize> LightAggregator<NB_PROOFS> {
 
         // We conclude by checking the IPA proof which guarantess the validity of
         // acc_rhs_evaluated.
-        let mut bases1 = [acc_rhs_bases, fixed_bases.values().cloned().collect()].concat();
+        let mut bases1 = [acc_rhs_bases, self.ipa_fixed_bases(&fixed_bases)].concat();
         let mut bases2 = self.lagrange_commitments[..bases1.len()].to_vec();
 
         let k = bases1.len().next_power_of_two();
